@@ -354,9 +354,17 @@ func editArray(t *rapid.T, x []V, p Profile, depth int) V {
 }
 
 func editObject(t *rapid.T, x map[string]V, p Profile, depth int) V {
-	op := Int(t, "objOp", 0, 5)
+	op := Int(t, "objOp", 0, 6)
 	ks := val.Keys(x)
 	switch {
+	case op == 6 && len(ks) >= 2: // exchange the values of two keys
+		i := Int(t, "swapK1", 0, len(ks)-1)
+		j := Int(t, "swapK2", 0, len(ks)-2)
+		if j >= i {
+			j++
+		}
+		x[ks[i]], x[ks[j]] = x[ks[j]], x[ks[i]]
+		return x
 	case op == 0 || len(ks) == 0: // add key
 		x[key(t, p)] = Value(t, p, depth+1)
 		return x
@@ -682,4 +690,33 @@ func DeepPair(t *rapid.T, a, b V, p Profile) (V, V) {
 		a, b = oa, ob
 	}
 	return a, b
+}
+
+
+// SwapValues exchanges the values of two keys in some of the objects of v.
+func SwapValues(t *rapid.T, v V, pct int) V {
+	switch x := v.(type) {
+	case []V:
+		out := make([]V, len(x))
+		for i, e := range x {
+			out[i] = SwapValues(t, e, pct)
+		}
+		return out
+	case map[string]V:
+		out := map[string]V{}
+		ks := val.Keys(x)
+		for _, k := range ks {
+			out[k] = SwapValues(t, x[k], pct)
+		}
+		if len(ks) >= 2 && Chance(t, "swapHere", pct) {
+			i := Int(t, "swapK1", 0, len(ks)-1)
+			j := Int(t, "swapK2", 0, len(ks)-2)
+			if j >= i {
+				j++
+			}
+			out[ks[i]], out[ks[j]] = out[ks[j]], out[ks[i]]
+		}
+		return out
+	}
+	return v
 }
